@@ -10,6 +10,7 @@ package kcp
 import (
 	"fmt"
 	"testing"
+	"testing/synctest"
 )
 
 // c02Bound is T: virtual ms allowed after the heal.
@@ -21,7 +22,7 @@ func c02Bound(sc *coreScenario, healAt int64, segs int) int64 {
 
 var fateNames = []string{"deliver", "drop", "duplicate", "late"}
 
-func TestVerifC02(t *testing.T) {
+func TestVerifC02Core(t *testing.T) {
 	rec := newRec(t, "C02")
 	defer rec.finish(t)
 	env := rec.env
@@ -176,4 +177,66 @@ func TestVerifC02(t *testing.T) {
 		}
 		caseIdx++
 	})
+}
+
+// TestVerifC02Sess: session-level tails. One-way transfers over FEC links (half
+// of them 1+p, where every datagram has parity of its own) with loss, then a
+// silent peer: everything must be read AND the sender's backlog must return
+// to zero (the last acknowledgement may reach the sender only as an
+// FEC-recovered packet).
+func TestVerifC02Sess(t *testing.T) {
+	rec := newRec(t, "C02")
+	defer rec.finish(t)
+	env := rec.env
+	var caseIdx int64 = 1 << 32
+	for q := 0; q < env.pickN(160, 4000); q++ {
+		idx := caseIdx
+		caseIdx++
+		if !env.mine(idx) {
+			continue
+		}
+		rng := rec.seed(uint64(idx), 201)
+		sc := genSessScenario(rng, idx, "session-tail")
+		sc.Link.Cipher = cipherNames[q%len(cipherNames)]
+		switch q % 4 {
+		case 0, 1:
+			sc.Link.D, sc.Link.P = 1, rng.between(1, 3)
+		case 2:
+			sc.Link.D, sc.Link.P = rng.between(2, 4), rng.between(1, 3)
+		default:
+			sc.Link.D, sc.Link.P = 0, 0
+		}
+		for _, c := range []*sessCfg{&sc.CfgC, &sc.CfgS} {
+			if c.Mtu != 0 && c.Mtu < sc.Link.overhead()+IKCP_OVERHEAD+30 {
+				c.Mtu = 0
+			}
+			c.SndWnd = max(c.SndWnd, 8)
+			c.RcvWnd = max(c.RcvWnd, 8)
+		}
+		sc.BytesCS = rng.between(500, 20000)
+		sc.BytesSC = 0
+		if q%8 == 7 {
+			sc.BytesSC = rng.between(500, 5000)
+		}
+		sc.Net = netProfile{Name: "lossy-tail", Loss: 0.05 + rng.float()*0.3, DelayMin: rng.between(1, 30), HealAt: 1 << 30}
+		sc.Net.DelayMax = sc.Net.DelayMin + rng.between(0, 20)
+		sc.LimitMs = 2 * 3600 * 1000
+		rec.beginCase(sc)
+		synctest.Test(t, func(t *testing.T) {
+			res := runSessScenario(t, rec, &sc, rng, nil)
+			res.tally(rec)
+			rec.eval(1)
+			if !res.completed {
+				d := ""
+				for _, x := range res.xs {
+					d += x.progress() + " "
+				}
+				rec.violation("C02 transfer did not complete within the virtual-time limit", d, sc)
+			}
+			if res.w.hub.nDropped.Load() > 0 {
+				rec.nontrivial(hashAny(sc))
+			}
+		})
+		rec.sample("session-tail", 2, sessBrief(&sc))
+	}
 }
